@@ -87,3 +87,66 @@ Theorem C16_bash_offers : forall words cur w,
   In w (compgen_W words cur) <-> In w words /\ exists t, w = cur ++ t.
 Proof. exact compgen_W_spec. Qed.
 Print Assumptions C16_bash_offers.
+
+(** ---- the bash generator's tables (class mangle_safe) ---- *)
+From ClapModel Require Import Complete.BashProofs.
+
+(** joining a path with "__" and [split("__")] are inverse exactly when no component contains "__",
+    ends in '_' or contains a space *)
+Theorem C16_split_join : forall ns b,
+  dd_safe b = true -> Forall (fun x => dd_safe x = true) ns ->
+  split_dd (b ++ join_with dd ns) = b :: ns.
+Proof. exact split_dd_path. Qed.
+Print Assumptions C16_split_join.
+
+(** the [cmd,word)] table contains exactly one entry per node, child and name-or-visible-alias of the child *)
+Theorem C16_bash_transitions : forall c r e,
+  In e (flat_map (add_command r) (c_subs c)) <->
+  exists pf p child, node_at r c pf p /\ In child (c_subs p) /\ In (snd (fst e)) (sc_words child) /\
+                     fst (fst e) = pf /\ snd e = pf ++ dd ++ mangle (c_name child).
+Proof. exact transitions_entries. Qed.
+Print Assumptions C16_bash_transitions.
+
+(** for every path of names or visible aliases to a node: the generator does not panic, the loop over
+    the words ends in the node's function name, and the arm of that name holds the node's words, its
+    option arms and its level *)
+Theorem C16_bash_table : forall c root_bin,
+  c_bin c = Some root_bin -> linked c -> mangle_safe c root_bin ->
+  exists t, bash_table c = Some t /\
+    forall w0 ws ns n, reach c ws ns n ->
+      fold_left (step (k_label (t_root t)) w0 (t_trans t)) (w0 :: ws) [] = fn_of (mangle root_bin) ns /\
+      exists k, lookup_case t (fn_of (mangle root_bin) ns) = Some k /\
+                opts_tokens n = Some (k_opts k) /\ k_details k = option_details n /\
+                k_level k = N.of_nat (S (List.length ws)).
+Proof. exact bash_table_spec. Qed.
+Print Assumptions C16_bash_table.
+
+(** the words of an arm's [opts]: exactly the node's shorts, longs (with visible aliases, see C16_shorts /
+    C16_longs), positional words and the names and visible aliases of its subcommands *)
+Theorem C16_bash_opts : forall n l,
+  opts_tokens n = Some l ->
+  forall w, In w l <->
+    (exists s, In s (shorts_and_visible_aliases n) /\ w = [45] ++ s) \/
+    (exists s, In s (longs_and_visible_aliases n) /\ w = [45; 45] ++ s) \/
+    (exists pos, In pos (get_positionals n) /\ In w (pos_tokens pos)) \/
+    (exists sc, In sc (c_subs n) /\ In w (sc_words sc)).
+Proof. exact opts_tokens_spec. Qed.
+Print Assumptions C16_bash_opts.
+
+(** the hypotheses are satisfiable by a tree with a hyphenated name, aliases and two levels ... *)
+Theorem C16_bash_table_nonvacuous :
+  c_bin ex_root = Some [112] /\ linked ex_root /\ mangle_safe ex_root [112]
+  /\ reach ex_root [[120]; [99]] [[97; 45; 98]; [99]] ex_leaf.
+Proof. exact mangle_safe_example. Qed.
+Print Assumptions C16_bash_table_nonvacuous.
+
+(** ... and outside the class the generator panics (finding bash-dunder-lookup) *)
+Theorem C16_bash_dunder_refuted :
+  exists c root_bin, c_bin c = Some root_bin /\ linked c /\ bash_table c = None.
+Proof. exact bash_dunder_refuted. Qed.
+Print Assumptions C16_bash_dunder_refuted.
+
+Theorem C16_deterministic : forall c1 c2 b1 b2,
+  c1 = c2 -> b1 = b2 -> generate_bash c1 b1 = generate_bash c2 b2.
+Proof. exact generate_bash_deterministic. Qed.
+Print Assumptions C16_deterministic.
